@@ -123,6 +123,15 @@ def _gen_subvalue(form):
                 for pat in itertools.product((None,) + dom, repeat=3):
                     values = {l: v for l, v in zip(labels, pat) if v is not None}
                     yield {"form": form, "type": T, "kind": kind, "terms": terms, "values": values}
+        # integer values whose product leaves the 64-bit range (Python integers are exact)
+        for T in types:
+            kind = "spin" if T in SPIN_TYPES else "bool"
+            labels = ILBL[:3] if T in MATRIX_TYPES else ['a', 0, ('t', 1)]
+            big = {labels[0]: 2 ** 40, labels[1]: 2 ** 40}
+            if not T.startswith("Q"):
+                yield {"form": form, "type": T, "kind": kind, "terms": {tuple(labels): 1, (labels[2],): 3}, "values": big}
+            yield {"form": form, "type": T, "kind": kind, "terms": {(labels[0], labels[1]): -3, (): 1},
+                   "values": {labels[0]: 3 ** 25, labels[1]: -(3 ** 25)}}
         rng = ctx.rng("c18.subvalue." + form)
         n = ctx.pick(300, 6000)
         for kind in ("bool", "spin"):
